@@ -16,7 +16,7 @@ import (
 func init() {
 	Register(&Prop{ID: "C18",
 		Meta: Meta{Stages: 2, Level: "exploration",
-			Rule:       "real Client+Serve with a cooperative plugin; a drawn history of 0-6 steps from {dispense, call, brokered connection host->plugin, brokered connection plugin->host, stdio write, ping, streaming call} x protocol {net/rpc, gRPC, gRPC+mux} x TLS {none, AutoMTLS} x launch {command, custom runner, custom runner with address translation} x UnixSocketConfig {none, empty, own TempDir}; every configuration with the empty and the full history enumerated, seeded histories and schedule noise in the shutdown paths on top; plus Kill RACING an operation in flight, systematically: stage 0 profiles every go-plugin statement a host goroutine passes during {host Accept, brokered pair in both directions, Dispense, call, Ping, unmatched Dial}, stage 1 runs one case per (statement, occurrence) in which another goroutine calls Kill exactly while the operation is at that statement; plus TWO hosts (the launching and a reattached one) Kill the same gRPC plugin 0-600 us apart while it holds three brokered listeners. Oracle after Kill returned and the plugin exited by itself: the file system holds no socket file or directory created by the host or the plugin process that was not there before (main listener, brokered listeners on both sides, the runner's plugin-dir*), and 10 simulated seconds later no goroutine labelled with the host process is inside a go-plugin function",
+			Rule:       "real Client+Serve with a cooperative plugin; a drawn history of 0-6 steps from {dispense, call, brokered connection host->plugin, brokered connection plugin->host, stdio write, ping, streaming call} x protocol {net/rpc, gRPC, gRPC+mux} x TLS {none, AutoMTLS} x launch {command, custom runner, custom runner with address translation} x UnixSocketConfig {none, empty, own TempDir} x {Unix sockets, TCP listeners of a Windows-style plugin, and host}; every configuration with the empty and the full history enumerated, seeded histories and schedule noise in the shutdown paths on top; plus Kill RACING an operation in flight, systematically: stage 0 profiles every go-plugin statement a host goroutine passes during {host Accept, brokered pair in both directions, Dispense, call, Ping, unmatched Dial}, stage 1 runs one case per (statement, occurrence) in which another goroutine calls Kill exactly while the operation is at that statement; plus TWO hosts (the launching and a reattached one) Kill the same gRPC plugin 0-600 us apart while it holds three brokered listeners. Oracle after Kill returned and the plugin exited by itself: the file system holds no socket file or directory created by the host or the plugin process that was not there before (main listener, brokered listeners on both sides, the runner's plugin-dir*), and 10 simulated seconds later no goroutine labelled with the host process is inside a go-plugin function, and the host holds no bound listener (Unix or TCP) any more",
 			Exhaustive: "protocol x TLS x launch x {empty history, full history}"},
 		Plan: func(tier string, seed uint64, stage int, prev []*h.Result) []*k.Spec {
 			if stage > 0 {
@@ -44,6 +44,16 @@ func init() {
 			for _, c := range confs {
 				for _, hist := range []string{"empty", "full", "noclient", "concclient"} {
 					out = append(out, sp("C18", fmt.Sprintf("cell/%s/%s%s/%s", confLabel(c), c["launch"], c["xlate"]+c["usc"], hist), seed, cp(c, "hist", hist)))
+				}
+			}
+			// Windows-style processes: TCP listeners, main and brokered
+			for _, c := range c03Confs {
+				for _, l := range []map[string]string{P("launch", "cmd"), P("launch", "runner"), P("launch", "runner", "xlate", "1")} {
+					for _, hg := range []string{"", "windows"} {
+						for _, hist := range []string{"full", "empty"} {
+							out = append(out, sp("C18", fmt.Sprintf("tcp/%s/%s%s/host%s/%s", confLabel(c), l["launch"], l["xlate"], hg, hist), seed, cp(c, "launch", l["launch"], "xlate", l["xlate"], "hist", hist, "pgoos", "windows", "hgoos", hg)))
+						}
+					}
 				}
 			}
 			// two hosts (the launching one and a reattached one) shut the same gRPC
@@ -257,6 +267,12 @@ func runC18(r *h.Run) {
 			}
 			left = append(left, fmt.Sprintf("%s %s (%s, created by %s)", kind, p, role, n.Creator))
 			r.Violate("file-left-behind", fmt.Sprintf("%s kind=%s role=%s creator=%s", ctx, kind, role, n.Creator), strings.Join(left, "\n"))
+		}
+	}
+	// a listener still bound (TCP listeners leave no file behind to give them away)
+	for _, l := range w.Listeners() {
+		if l.Owner() != nil && l.Owner().Name == "host" && !l.IsClosed() {
+			r.Violate("listener-left-open", fmt.Sprintf("%s network=%s owner=host", ctx, l.Network), fmt.Sprintf("the host still listens on %s|%s after Kill (a brokered listener go-plugin handed out and did not close)", l.Network, l.Address))
 		}
 	}
 	if leaks := r.HostStacks("simworld/goplugin"); leaks != "" {
